@@ -31,6 +31,8 @@ CONSTANTS
  Aead = TRUE
  CheckIdent = TRUE
  RelayOnce = TRUE
+ SuspendJoin = FALSE
+ JoinCacheFirst = TRUE
  AutoTimers = TRUE
 INVARIANT TypeOK
 INVARIANT ExitIntegrity
